@@ -137,7 +137,17 @@ func WithEvalImports(v map[string]string) RunOption { return func(c *runConfig) 
 func WithCodeDump(v io.Writer) RunOption            { return func(c *runConfig) { c.codeDump = v } }
 func WithTreeDump(v io.Writer) RunOption            { return func(c *runConfig) { c.treeDump = v } }
 
+// noFiles stands in for a nil fs.FS: there is nothing to open
+type noFiles struct{}
+
+func (noFiles) Open(name string) (fs.File, error) {
+	return nil, &fs.PathError{Op: "open", Path: name, Err: fs.ErrNotExist}
+}
+
 func (v *VM) Load(sys fs.FS, arg string, options ...RunOption) error {
+	if sys == nil {
+		sys = noFiles{}
+	}
 	arg = strings.Replace(filepath.Clean(arg), string(os.PathSeparator), "/", -1)
 	var config runConfig
 	for _, o := range options {
@@ -189,6 +199,9 @@ func (v *VM) codeDump(w io.Writer, codes []instruction) {
 }
 
 func (v *VM) Eval(sys fs.FS, fname, input string, options ...RunOption) (rets []Value, err error) {
+	if sys == nil {
+		sys = noFiles{}
+	}
 	var opts runConfig
 	for _, o := range options {
 		o(&opts)
